@@ -92,8 +92,27 @@ pub fn run(_tier: &str) -> Report {
             }
         }
     }
+    // arbitrary text around and inside the scheme / base URL: every prefix of both base URLs, cut at every byte, followed
+    // by non-ASCII and ASCII continuations (a multi-byte character straddling any fixed byte offset), in upper case too
+    let tails = ["", "é@u:b", "\u{1F980}/#/@u:b", "@u:b", "/", "éé", "\u{e9}\u{1F980}é!r:b/$e"];
+    for base in ["https://matrix.to/#/", "matrix:", "HTTPS://MATRIX.TO/#/", "https://matrix.to/#/@u:b"] {
+        for cut in 0..=base.len() {
+            for tail in tails {
+                for pad in ["", "x", "é"] {
+                    let text = format!("{}{pad}{tail}", &base[..cut]);
+                    for case in ["uri.matrixto_parse", "uri.matrix_parse"] {
+                        cases_n += 1;
+                        let args = vec![text.clone()];
+                        if std::panic::catch_unwind(|| cases::run(case, &args)).is_err() {
+                            fail(&mut f_panic, json!({"text": text, "why": "panic while parsing"}));
+                        }
+                    }
+                }
+            }
+        }
+    }
     Report {
-        bound: format!("{} identifiers x 2 URI schemes x 5 via lists x action x {} event ids; {} malformed texts (fragments alphabet of 9, length <= 4) x 4 bases", rooms.len() + aliases.len() + users.len(), events.len(), texts.len()),
+        bound: format!("{} identifiers x 2 URI schemes x 5 via lists x action x {} event ids; {} malformed texts (fragments alphabet of 9, length <= 4) x 4 bases; every byte-prefix of 4 base URLs x 3 paddings x 7 ASCII / non-ASCII tails", rooms.len() + aliases.len() + users.len(), events.len(), texts.len()),
         cases: cases_n,
         obligations: vec![
             ("format_then_parse_yields_the_same_value", cases_n, f_rt),
